@@ -242,6 +242,41 @@ Theorem C17_token_cancel :
 Proof. exact auth_do_tok_cancel. Qed.
 Print Assumptions C17_token_cancel.
 
+(* the same with a warm Bearer cache (cached token tried first, fresh token fetched when it is
+   refused): bodies of all three sends and of the token request, bounds, one-shot, cancellation *)
+Theorem C17_token_warm_bodies :
+  forall p cn bd sc tb tsc t0,
+    wf_body bd -> wf_body tb ->
+    let a := auth_do_tokw_at p cn bd sc tb tsc t0 in
+    bodies_ok bd sc 0 (attempts (aw_first a) ++ attempts (aw_second a) ++ attempts (aw_third a)) /\
+    bodies_ok tb tsc 0 (attempts (aw_token a)).
+Proof. exact auth_do_tokw_at_bodies. Qed.
+Print Assumptions C17_token_warm_bodies.
+
+Theorem C17_token_warm_attempts :
+  forall p cn bd sc tb tsc t0,
+    let a := auth_do_tokw_at p cn bd sc tb tsc t0 in
+    1 <= Z.of_nat (length (attempts (aw_first a))) <= Z.max 0 (p_max_retry p) + 1 /\
+    Z.of_nat (length (attempts (aw_second a))) <= Z.max 0 (p_max_retry p) + 1 /\
+    Z.of_nat (length (attempts (aw_token a))) <= Z.max 0 (p_max_retry p) + 1 /\
+    Z.of_nat (length (attempts (aw_third a))) <= Z.max 0 (p_max_retry p) + 1.
+Proof. exact auth_do_tokw_at_attempts. Qed.
+Print Assumptions C17_token_warm_attempts.
+
+Theorem C17_token_warm_not_replayable :
+  forall p cn bd sc tb tsc t0,
+    (forall st', rewind bd st' = RwNoGetBody \/ rewind bd st' = RwGetBodyErr) ->
+    let a := auth_do_tokw_at p cn bd sc tb tsc t0 in
+    length (attempts (aw_first a)) = 1%nat /\ aw_second a = [] /\ aw_token a = [] /\ aw_third a = [].
+Proof. exact auth_do_tokw_at_not_replayable. Qed.
+Print Assumptions C17_token_warm_not_replayable.
+
+Theorem C17_token_warm_cancel :
+  forall p bd sc tb tsc t0 tc dl,
+    authw_cancel_post tc t0 (auth_do_tokw_at p (Some (tc, dl)) bd sc tb tsc t0).
+Proof. exact auth_do_tokw_at_cancel. Qed.
+Print Assumptions C17_token_warm_cancel.
+
 (* the coarser model auth_do (token served at once) is auth_do_tok with a token service that
    answers 200 immediately *)
 Theorem C17_token_instant_refines :
